@@ -639,10 +639,25 @@ func genC18Held(w *bufio.Writer, r *rand.Rand, id string) {
 			}
 		}
 	}
+	// a key with several versions below the iterator's snapshot, sought again after the iterator
+	// has stepped from its newest version onto an older one (a Seek goes back to the newest)
+	reseek := -1
+	if r.Intn(3) == 0 {
+		reseek = 2 * r.Intn(nk)
+		for n := 2 + r.Intn(3); n > 0; n-- {
+			put(reseek)
+		}
+	}
 	if r.Intn(10) == 0 {
 		fmt.Fprintf(w, "imm\n")
 	}
 	fmt.Fprintf(w, "hnew\n")
+	if reseek >= 0 {
+		fmt.Fprintf(w, "hseek %s\nhnext\nhseek %s\n", key(reseek), key(reseek))
+		if r.Intn(2) == 0 {
+			fmt.Fprintf(w, "hnext\nhnext\nhseek %s\n", key(reseek))
+		}
+	}
 	if r.Intn(3) == 0 {
 		put(2 * r.Intn(nk))
 	}
